@@ -97,3 +97,54 @@ Proof.
     exists g. rewrite E1. cbn [same_events_bc]. congruence.
 Qed.
 Print Assumptions C02_level0_source_to_bytecode.
+
+(** ** the converse, and divergence
+    A bytecode run that ends (normally or on an I/O failure) is matched by an IR run that ends the
+    same way with the same I/O state: every loop iteration of the IR costs the bytecode at least one
+    branch, so the bytecode cannot end while the IR keeps running.  Hence on an accepted pair the two
+    runs end together, with equal traces, or diverge together. *)
+Theorem C02_validated_translation_converse : forall w fuse ir (p : bprog) zs cs e budget,
+  tv_check w fuse ir (bp_code p) zs cs = true ->
+  forall fuel sb',
+  (bc_run w e false budget fuel p = Done sb' ->
+     exists fuel' si', ir_run w e false budget fuel' ir = Done si' /\ ir_io si' = bc_io sb') /\
+  (bc_run w e false budget fuel p = Stopped sb' ->
+     exists fuel' si', ir_run w e false budget fuel' ir = Stopped si' /\ ir_io si' = bc_io sb').
+Proof. exact tv_sound_back. Qed.
+Print Assumptions C02_validated_translation_converse.
+
+Definition ends {A} (o : outcome A) : Prop := match o with Done _ | Stopped _ => True | _ => False end.
+
+Theorem C02_divergence_preserved : forall w fuse ir (p : bprog) zs cs e budget,
+  tv_check w fuse ir (bp_code p) zs cs = true ->
+  ((forall fuel, ~ ends (ir_run w e false budget fuel ir)) <-> (forall fuel, ~ ends (bc_run w e false budget fuel p))).
+Proof.
+  intros w fuse ir p zs cs e budget H. split; intros D fuel E.
+  - destruct (bc_run w e false budget fuel p) as [sb|sb|sb|q sb|sb] eqn:R; try contradiction.
+    + destruct (proj1 (tv_sound_back w fuse ir p zs cs e budget H fuel sb) R) as (f & si & EI & _).
+      apply (D f). rewrite EI. exact I.
+    + destruct (proj2 (tv_sound_back w fuse ir p zs cs e budget H fuel sb) R) as (f & si & EI & _).
+      apply (D f). rewrite EI. exact I.
+  - destruct (ir_run w e false budget fuel ir) as [si|si|si|q si|si] eqn:R; try contradiction.
+    + destruct (proj1 (tv_sound w fuse ir p zs cs e budget H fuel si) R) as (g & sb & EB & _).
+      apply (D g). rewrite EB. exact I.
+    + destruct (proj2 (tv_sound w fuse ir p zs cs e budget H fuel si) R) as (g & sb & EB & _).
+      apply (D g). rewrite EB. exact I.
+Qed.
+Print Assumptions C02_divergence_preserved.
+
+(** level 0, end to end, divergence: a source text whose canonical run never ends (cell width >= 1)
+    gives accepted level-0 bytecode that never ends either *)
+From HPBF Require Import Level0Back.
+Theorem C02_level0_source_divergence : forall w e src ast blk fuse (p : bprog) zs cs,
+  1 <= w -> ast_of_source src = Some ast -> parse w src = POk blk ->
+  tv_check w fuse blk (bp_code p) zs cs = true ->
+  (forall f, ~ terminal (bf_exec w e f ast bf0)) ->
+  forall fuel, ~ ends (bc_run w e false 0 fuel p).
+Proof.
+  intros w e src ast blk fuse p zs cs Hw HA HP HT D.
+  apply (proj1 (C02_divergence_preserved w fuse blk p zs cs e 0 HT)).
+  intros fuel E. apply (level0_divergence w e src ast blk Hw HA HP D fuel).
+  destruct (ir_run w e false 0 fuel blk); try contradiction; exact I.
+Qed.
+Print Assumptions C02_level0_source_divergence.
